@@ -32,8 +32,38 @@ def run(ctx):
     ctx.rule("R6.invalidate-visits-every-region", "invalidate_regions clears every initialised regional slot: the loop runs over all of regional_states to exhaustion, skipping (not stopping at) uninitialised slots", floor=1)
     ctx.rule("R7.fresh-generation-per-write", "the generation drawn for a write can never equal the initial value's generation: next_generation starts above the constant stamped on the initial value, and is only ever incremented", floor=2)
     ctx.rule("R8.install-does-not-clobber-set", "region_local: the initialiser (and its panic cleanup) replaces only its own `Initializing` marker (compare_and_swap) - an unconditional store there would overwrite a set_local that completed while the user initialiser ran", floor=2)
+    ctx.rule("R9.single-install-door", "RegionalState::initialize (the only function that installs a regional copy) is called from the reader path with_in_region alone, and a regional state is created empty: invalidate_regions skips slots that do not exist yet, so a state born with a copy, or a copy installed by a writer, escapes the invalidation of a concurrent write", floor=2)
     rcv = "region_cached::region_cached::RegionCached"
     invalidate_and_generation_rules(ctx, prog)
+    # ---- R9
+    callers = sorted({b.key.split("::{closure")[0] for b, _bb, _t in who_calls(prog, "region_cached::RegionalState::initialize") if "::tests" not in b.key})
+    ok = callers == ["region_cached::region_cached::RegionCached::with_in_region"]
+    ctx.ob("R9.single-install-door", "initialize-callers", ok, "", f"callers of RegionalState::initialize: {[c.split('::')[-1] for c in callers]} (need exactly with_in_region, which re-validates after installing)")
+    wrs = prog.one("region_cached::GlobalState::with_regional_state")
+    if wrs is None:
+        ctx.missing("R9.single-install-door", "GlobalState::with_regional_state")
+    else:
+        extra = []
+        for c in prog.closures_of(wrs):
+            goi = None
+            for _bb, t in c.calls():
+                k = callee_key(t["callee"]).split("::")[-1]
+                if k not in ("new", "default", "clone", "from", "into"):
+                    extra.append(k)
+        # only the creation closure (handed to get_or_init) is constrained: it builds and wraps, nothing else
+        creators = []
+        for bb, t in wrs.calls():
+            if t["callee"].get("method") in ("get_or_init", "get_or_insert_with", "get_or_try_init"):
+                for a in t["args"]:
+                    l = op_local(a)
+                    if l is not None:
+                        creators += wrs.local_ty(l).get("closures", [])
+        bad = []
+        for ck in creators:
+            cb = prog.by_key.get(strip_generics(ck))
+            if cb:
+                bad += [callee_key(t["callee"]).split("::")[-1] for _bb, t in cb[0].calls() if callee_key(t["callee"]).split("::")[-1] not in ("new", "default")]
+        ctx.ob("R9.single-install-door", "regional-state-born-empty", not bad, wrs.loc(), f"calls in the creation closure other than constructors: {bad or 'none'}")
     local_install_rule(ctx, prog)
     sg = prog.one("region_cached::RegionCached::set_global")
     if sg is None:
